@@ -51,7 +51,8 @@ CLAIMS = {
          "Coq proof (grammar + UTF-8 decoder case analysis) + differential correspondence"),
  "C09": ("Coq theorems, unbounded: round trip of any message list under every chunking, chunking irrelevance, oversize / legacy / "
          "truncated streams end only that connection without delivering or allocating, replies framed once with the request type; "
-         "real ReadMessage / serve over chunked readers, pipes and a unix socket, all 2^16 values of header bytes 4-5.",
+         "real ReadMessage / serve over chunked readers, pipes and a unix socket, all 2^16 values of header bytes 4-5; delivered bytes "
+         "stay what they were when the next message is read.",
          "§4 C09", "reads never return data together with an error; writes succeed.",
          "Coq proof by induction over messages and chunkings + differential correspondence"),
  "C11": ("Coq theorems: the final flush is total (no blocked state), reports the exit, is final (later operations are no-ops), "
@@ -67,7 +68,7 @@ CLAIMS = {
          "Coq proof (functional part) + in-Coq exhaustive LTS enumeration lifted by forallb_forall + trace inclusion"),
  "C13": ("Coq theorems over all pairs of policy maps: verify iff the three documented conditions, fail-closed (no connect request "
          "unless verified), enabled = agent && collector, returned policies are the collector's; exhaustive 3-name map pairs "
-         "through the real ConnectApplication.",
+         "through the real ConnectApplication; processor-level cases incl. retried attempts (fail-closed on every attempt).",
          "§4 C13", "JSON decoding of the policy maps assumed sane.", "Coq proof + exhaustive differential correspondence"),
  "C18": ("Coq theorems for any max and any number of requests: permits + running = max on every reachable state, bound, time-out "
          "semantics, quiescent => full, wiring max = 100 / 45 s translated from the source; real limitClient scenarios checked "
@@ -76,13 +77,14 @@ CLAIMS = {
  "C05": ("Coq theorems: the generated limits equal the documented ones; at most 2000 unforced metrics under every build and "
          "iteration order, forced offers never refused, numDropped exact; every reservoir capacity is min(daemon max, collector "
          "limit) (log: also the agent limit scaled to the report period) for ALL agent/collector values incl. absent, negative, "
-         "> max, >= 2^63; advertised limits; 250-application cap over all histories; counters exact through merges and Split; capacity periods with scoped names on the real metric table.",
+         "> max, >= 2^63; advertised limits; 250-application cap over all histories; counters exact through merges and Split; capacity periods with scoped names on the real metric table; every negotiation repeated on the same application (reconnect).",
          "§4 C05", "float64 arithmetic of processLogEventLimits modelled on Z (exactness argued for products < 2^53); encoding/json decode modelled.",
          "Coq proof + grid/differential correspondence through parseConnectReply, UnmarshalAppInfo, NewHarvest and a real Processor"),
  "C10": ("Coq theorems over EVERY byte string: decoding on the connection goroutine ends in ok/error/recovered panic with the "
          "state unchanged, the lazy transaction decode on the processor goroutine is contained, other runs are untouched and the "
          "service continues (bisimulation); one listed known finding (span_queue_size) with refuted/partial theorems; thousands "
-         "of structured mutants through the real listener + CommandsHandler + live Processor.",
+         "of structured mutants through the real listener + CommandsHandler + live Processor (audit log on), hostile numbers and text "
+         "in well-formed App messages.",
          "§4 C10", "byte-level model of the flatbuffers Go runtime accessors is a hand transcription driven by the generated schema; harvest aggregation abstracted to contribution lists.",
          "Coq proof (total decoder with uint32 wrap, None exactly where Go panics) + mutation-based differential correspondence"),
  "C14": ("PARTIAL by nature: Coq theorems for the redaction functions (license obfuscation non-interference, argument echo "
@@ -94,7 +96,7 @@ CLAIMS = {
  "C15": ("Translation of protocol.fbs, the generated Go accessors/builders and the C header into three Coq tables on every run; "
          "Coq theorems: the tables agree field by field over the whole schema (exhaustive), shared limits equal, and for ANY "
          "schema table equality is exactly the condition for every message to decode to what was sent; messages built with the "
-         "C header's numbers decoded by the daemon's accessors.",
+         "C header's numbers decoded by the daemon's accessors; every MessageBody member dispatched through the command handler.",
          "§4 C15", "translator and alias table trusted; the C side is its header and the call kinds of the transmit code.",
          "source translation + Coq proof (generic vtable round trip) + exhaustive vm_compute table comparison"),
  "C16": ("Coq theorems on an LTS of producer / worker / supportability goroutine / shutdown with the uint64 capacity counter "
